@@ -95,6 +95,31 @@ def u_user_nodes(ip):
     c.oblige("var_rejected_as_log_lik_node", kind == "raise" and r.cls == "RuntimeError")
 
 
+@unit("C02.user_nodes_repeated_build", "C02", [f"{M}::GraphBuilder.build_model", f"{M}::GraphBuilder.copy", f"{M}::GraphBuilder.log_lik_node.fget", f"{M}::GraphBuilder.log_prior_node.fget",
+                                               f"{M}::GraphBuilder.log_prob_node.fget"], assumptions=["A-PY deepcopy"])
+def u_user_nodes_repeated(ip):
+    """build_model(copy=True) leaves the builder as it was - in particular its user-supplied total nodes - so every model built from the
+    same builder afterwards (copy=True again, then copy=False) still forwards the user nodes unchanged."""
+    c = ip.ctx
+    install_graph_models(ip)
+    g = G(ip)
+    roots = SHAPES["flat"](g)
+    gb = ip.call(g.GB, [], {})
+    ip.call(method(ip, gb, "add"), roots, {})
+    nodes, vars_ = ip.call(method(ip, gb, "_all_nodes_and_vars"), [], {})
+    by = {ip.getattr(v, "name"): v for v in vars_}
+    user = {k: g.calc(f"user_{k}", by["b"], by["y"], name=f"user_{k}") for k in ("lik", "prior", "prob")}
+    for k in user:
+        ip.setattr(gb, f"log_{k}_node", user[k])
+    for i, copy in enumerate((True, True, False)):
+        model = ip.call(method(ip, gb, "build_model"), [], {"copy": copy})
+        for k, attr in (("lik", "log_lik"), ("prior", "log_prior"), ("prob", "log_prob")):
+            c.oblige(f"build{i + 1}.copy_{copy}.user_{k}_forwarded_unchanged", ip.to_U(ip.getattr(model, attr)) == ip.uf(f"user_{k}", z3.Const("val_b", U), z3.Const("val_y", U)))
+        if copy:
+            c.oblige(f"build{i + 1}.builder_keeps_its_user_nodes", all(ip.getattr(gb, f"log_{k}_node") is user[k] for k in user))
+            c.oblige(f"build{i + 1}.builder_keeps_its_variables", len(ip.getattr(gb, "vars")) == len(roots))
+
+
 @unit("C02.user_node_single", "C02", [f"{M}::GraphBuilder._add_model_log_prob_node", f"{M}::GraphBuilder._add_model_log_lik_node", f"{M}::GraphBuilder._add_model_log_prior_node"])
 def u_user_single(ip):
     """when only ONE of the partial totals is replaced by a user node (every distribution flagged exactly once), that node is forwarded
